@@ -69,12 +69,13 @@ type c18WCase struct {
 	Procs    int
 	CacheCap int
 	Seed     uint64
-	// Cold: the goroutines' calls are the FIRST calls into the library made by
-	// the process (material comes from the standard library, expected results
-	// are computed afterwards), so that a package-level table or constant that
-	// is initialised lazily instead of "only during init" is initialised under
-	// concurrency.  Warm: expected results first, valid sr25519 signatures
-	// available as inputs.
+	// Cold: apart from constructing the fresh shared instances, the goroutines'
+	// calls are the FIRST calls into the library made by the process (material
+	// comes from the standard library and verifref, expected results are
+	// computed after the first concurrent run), so that a package-level table
+	// or constant that is initialised lazily instead of "only during init" is
+	// initialised under concurrency.  Warm: expected results first, valid
+	// sr25519 signatures available as inputs, shared sr25519 KeyPair objects.
 	Cold  bool
 	Shape string // generator shape (label only)
 	G     [][]c18Op
@@ -171,7 +172,7 @@ func c18WReps(c c18WCase) int {
 	}
 	budget, lo, hi := 250, 3, 30
 	if !strings.HasPrefix(os.Getenv("VERIF_CONFIG"), "race") {
-		budget, lo, hi = 2500, 10, 300
+		budget, lo, hi = 2000, 10, 300
 	}
 	reps := budget / n
 	if reps < lo {
@@ -180,7 +181,11 @@ func c18WReps(c c18WCase) int {
 	if reps > hi {
 		reps = hi
 	}
-	return cache.C18Reps(reps, 20*reps)
+	replay := 20 * reps
+	if replay < 200 {
+		replay = 200
+	}
+	return cache.C18Reps(reps, replay)
 }
 
 func c18WValid(c c18WCase) bool {
